@@ -395,6 +395,23 @@ def pcache_method(c, interp, ref, o, name, args, kwargs, node):
             c.event('cache-invalidate-keys', a.id)
             return NONE
         raise Unsupported('cache.invalidate(%r)' % (a,), node)
+    if name == 'new_ghost':
+        # PickleCache.new_ghost(oid, obj): files a ghost under oid and makes it belong to the jar (A-PICKLECACHE:
+        # sets _p_oid/_p_jar, state ghost); refuses an oid that is already filed
+        k = _key(c, args[0], node)
+        v = args[1]
+        if k is None or not (isinstance(v, VOpaque) and v.tag == 'pobj'):
+            raise Unsupported('cache.new_ghost(%r)' % (args,), node)
+        present = z3.Select(o.f['dom'], k)
+        if c.choose([present, z3.Not(present)], 'new_ghost') == 0:
+            raise RaiseSig(VExc('builtins:ValueError'))
+        o.f['dom'] = z3.Store(o.f['dom'], k, z3.BoolVal(True))
+        o.f['val'] = z3.Store(o.f['val'], k, v.t)
+        u['oid'] = z3.Store(u['oid'], v.t, k)
+        u['jar'] = z3.Store(u['jar'], v.t, 1)
+        u['changed'] = z3.Store(u['changed'], v.t, -1)
+        c.event('new-ghost', k, v.t)
+        return NONE
     if name in ('incrgc', 'update_object_size_estimation', 'minimize', 'full_sweep'):
         return NONE
     if name == '__len__':
@@ -432,6 +449,19 @@ def storage_method(c, interp, ref, o, name, args, kwargs, node):
         tid = c.fresh_bytes(8, 'committed_tid')
         c.ghost['committed_tid'] = tid
         return tid
+    if name == 'load':
+        # the connection's storage (MVCC instance): the record of oid as of the snapshot, or POSKeyError
+        c.event('storage.load', args[0] if args else None)
+        if c.choose([True, True], 'storage-load') == 1:
+            raise RaiseSig(VExc('ZODB.POSException:POSKeyError'))
+        r = VTuple([c.fresh_barr('pickle'), c.fresh_bytes(8, 'serial')])
+        c.ghost.setdefault('loaded', []).append((args[0] if args else None, r))
+        return r
+    if name == 'loadBlob':
+        c.event('storage.loadBlob', tuple(args))
+        if c.choose([True, True], 'storage-loadBlob') == 1:
+            raise RaiseSig(VExc('ZODB.POSException:POSKeyError'))
+        return c.fresh_opaque('committed_blob_file')
     if name == 'tpc_abort':
         c.event('storage.tpc_abort', args[0] if args else None)
         return NONE
